@@ -1,5 +1,6 @@
 import JsonPathVerif.Lex.Int
 import JsonPathVerif.Lex.Names
+import JsonPathVerif.Lex.Tokens
 import JsonPathVerif.Parser
 import JsonPathVerif.Validity
 /-! # C07 – every string that is not a valid RFC 9535 query is rejected (lexical layers on the GENERATED grammar) -/
@@ -31,6 +32,17 @@ theorem C07_partial_function_name (c : Ctx) (pos : Nat) (r : Rest) (s : St RuleI
   have := function_name_spec c pos r
   rw [h] at this
   simpa using this.symm
+
+/-- layers 2-4, soundness: the token rules accept nothing but RFC tokens (`1. 5`, `'\\ n'`, `\\u 00 41`, a lone surrogate, `\\'`
+inside double quotes are not tokens) and stop right after the token -/
+theorem C07_partial_tokens (c : Ctx) (pos : Nat) (r : Rest) (s : St RuleId) :
+    (int_ c pos r = some s → RfcLex.int r = some s.rest) ∧
+    (number_ c pos r = some s → RfcLex.number r = some s.rest) ∧
+    (string_ c pos r = some s → RfcLex.stringLiteral r = some s.rest) := by
+  refine ⟨fun h => ?_, fun h => ?_, fun h => ?_⟩
+  · have := int_denotes c pos r; unfold lexR at this; rw [h] at this; simpa using this.symm
+  · have := number_denotes c pos r; unfold lexR at this; rw [h] at this; simpa using this.symm
+  · have := string_denotes c pos r; unfold lexR at this; rw [h] at this; simpa using this.symm
 
 /-- blanks, leading zeros and `-0` are not `int` lexemes -/
 example : rfcInt "1 2".toList = some " 2".toList ∧ rfcInt "- 1".toList = none ∧ rfcInt "-0".toList = none ∧
